@@ -169,11 +169,38 @@ def exc_ancestors(name: str) -> set[str]:
     return out
 
 
+def _reraises(h: ast.ExceptHandler) -> bool:
+    """handler whose body is a bare `raise` (comments/docstrings aside): the exception keeps propagating"""
+    body = [s for s in h.body if not (isinstance(s, ast.Expr) and isinstance(s.value, ast.Constant))]
+    return len(body) == 1 and isinstance(body[0], ast.Raise) and body[0].exc is None
+
+
 def is_caught(func_node: ast.AST, target: ast.AST, exc: str) -> bool:
+    """Is an exception of class `exc` raised at `target` stopped inside func_node?  Handlers are consulted
+    innermost try first and, within one try, in source order (first match wins); a matching handler that only
+    re-raises passes the exception on to the next enclosing try."""
     anc = exc_ancestors(exc)
-    for h in handlers_covering(func_node, target):
-        if handler_names(h) & anc:
-            return True
+    hs = handlers_covering(func_node, target)
+    # group consecutive handlers that belong to the same try statement
+    groups: list[list[ast.ExceptHandler]] = []
+    owner = {}
+    for n in ast.walk(func_node):
+        if isinstance(n, ast.Try) or n.__class__.__name__ == "TryStar":
+            for h in n.handlers:
+                owner[id(h)] = id(n)
+    for h in hs:
+        key = owner.get(id(h), id(h))
+        if groups and owner.get(id(groups[-1][0]), id(groups[-1][0])) == key:
+            groups[-1].append(h)
+        else:
+            groups.append([h])
+    for g in groups:
+        g_sorted = sorted(g, key=lambda h: getattr(h, "lineno", 0))
+        for h in g_sorted:
+            if handler_names(h) & anc:
+                if _reraises(h):
+                    break  # propagates to the next enclosing try
+                return True
     return False
 
 
